@@ -201,6 +201,25 @@ CATALOGUE = [
     ('c15_reach_window_strict', 'C15', 'gearpy/motor_control/rules/reach_angular_position.py',
      "        if angular_position >= braking_starting_angle:",
      "        if angular_position >= braking_starting_angle + self.__braking_angle/10:"),
+    # ---- C08
+    ('c08_dead_zone_strict', 'C08', M,
+     "        if abs(self.pwm) <= pwm_min:\n            self.driving_torque = Torque(0, unit=self.maximum_torque.unit)",
+     "        if abs(self.pwm) < pwm_min:\n            self.driving_torque = Torque(0, unit=self.maximum_torque.unit)"),
+    ('c08_negative_branch_sign', 'C08', M,
+     "                    (self.pwm*self.maximum_electric_current +\n                        self.no_load_electric_current) /",
+     "                    (self.pwm*self.maximum_electric_current -\n                        self.no_load_electric_current) /"),
+    ('c08_denominator_imax', 'C08', M,
+     "                    (self.pwm*self.maximum_electric_current -\n                        self.no_load_electric_current) /\n                    (self.maximum_electric_current -\n                        self.no_load_electric_current)",
+     "                    (self.pwm*self.maximum_electric_current -\n                        self.no_load_electric_current) /\n                    (self.maximum_electric_current)"),
+    ('c08_in_zone_current', 'C08', M,
+     "                    self.pwm/pwm_min*self.no_load_electric_current.to(",
+     "                    self.pwm*self.no_load_electric_current.to("),
+    ('c08_zero_tmax_returns_zero_current', 'C08', M,
+     "            self.electric_current = no_load_electric_current.to(\n                self.maximum_electric_current.unit\n            )\n            return",
+     "            self.electric_current = Current(0, self.maximum_electric_current.unit)\n            return"),
+    ('c08_no_current_motor_uses_pwm', 'C08', M,
+     "                value=(1 - self.angular_speed /\n                       self.no_load_speed)*self.maximum_torque.value,",
+     "                value=(self.pwm - self.angular_speed /\n                       self.no_load_speed)*self.maximum_torque.value,"),
 ]
 
 
